@@ -191,6 +191,8 @@ class Hist:
         meth = rng.choice(self.cfg.get("modm", ["append", "insert", "extend", "iadd", "remove", "pop", "delitem", "delslice", "setitem",
                                                 "setslice", "clear", "reverse"]))
         idx = rng.choice([0, -1, 1, n - 1, n, -n, -n - 1, n + 2, 2]) if rng.random() < 0.5 else (rng.randrange(n) if n else 0)
+        if rng.random() < 0.06:
+            idx = rng.choice([1 << 63, (1 << 63) - 1, -(1 << 63), -(1 << 63) - 1, (1 << 64) - 1])      # beyond the machine word: OverflowError from insert / pop, before anything moves
         ob = lambda: opt(rng.choice([None, 0, 1, -1, n, n + 1, 2]))  # noqa: E731
         if meth == "append":
             self.emit([4, ir, rng.choice(mods)])
